@@ -14,9 +14,7 @@
 #include "ada.h"
 #include "ada.cpp"
 #endif
-#ifdef VK_WITH_CAPI
-#include "ada_c.cpp"
-#endif
+// (src/ada.cpp already includes ada_c.cpp: the C API is part of the same translation unit)
 
 #define VK(name)                                                                          \
   extern "C" __attribute__((noinline)) uint64_t vk_##name(const uint8_t* in, uint64_t n, \
@@ -375,4 +373,195 @@ VK(can_parse_fast) {
   UNUSED;
   auto r = ada::try_can_parse_absolute_fast(SV);
   return r.has_value() ? uint64_t(*r) : 2;
+}
+
+// ---------------------------------------------------------------- C API (C17)
+#if 1
+// A handle is an ada::result<ada::url_aggregator> on the stack holding (p1 == 0) the loaded state or (p1 != 0) an error.
+// p0 selects the function.  String getters: returns c_len | cpp_len<<16 | same_pointer<<32 | c_null<<33 | cpp_applicable<<34.
+// Predicates / scalars (p0 >= 16): returns c_value | cpp_value<<16.
+VK(capi_get) {
+  UNUSED;
+  ada::result<ada::url_aggregator> r = tl::unexpected(ada::errors::type_error);
+  if (p1 == 0) {
+    ada::url_aggregator u;
+    vk_load(u, in);
+    r = std::move(u);
+  }
+  void* h = &r;
+  if (p0 < 16) {
+    ada_string c{};
+    std::string_view v;
+    switch (p0) {
+      case 0: c = ada_get_href(h); if (r) v = r->get_href(); break;
+      case 1: c = ada_get_username(h); if (r) v = r->get_username(); break;
+      case 2: c = ada_get_password(h); if (r) v = r->get_password(); break;
+      case 3: c = ada_get_port(h); if (r) v = r->get_port(); break;
+      case 4: c = ada_get_hash(h); if (r) v = r->get_hash(); break;
+      case 5: c = ada_get_host(h); if (r) v = r->get_host(); break;
+      case 6: c = ada_get_hostname(h); if (r) v = r->get_hostname(); break;
+      case 7: c = ada_get_pathname(h); if (r) v = r->get_pathname(); break;
+      case 8: c = ada_get_search(h); if (r) v = r->get_search(); break;
+      default: c = ada_get_protocol(h); if (r) v = r->get_protocol(); break;
+    }
+    bool same = r.has_value() && (c.length == 0 ? v.size() == 0 : c.data == v.data());
+    return uint64_t(c.length & 0xffff) | (uint64_t(v.size() & 0xffff) << 16) | (uint64_t(same) << 32) |
+           (uint64_t(c.data == nullptr) << 33) | (uint64_t(r.has_value()) << 34);
+  }
+  uint64_t cv = 0, pv = 0;
+  switch (p0) {
+    case 16: cv = ada_has_credentials(h); if (r) pv = r->has_credentials(); break;
+    case 17: cv = ada_has_empty_hostname(h); if (r) pv = r->has_empty_hostname(); break;
+    case 18: cv = ada_has_hostname(h); if (r) pv = r->has_hostname(); break;
+    case 19: cv = ada_has_non_empty_username(h); if (r) pv = r->has_non_empty_username(); break;
+    case 20: cv = ada_has_non_empty_password(h); if (r) pv = r->has_non_empty_password(); break;
+    case 21: cv = ada_has_port(h); if (r) pv = r->has_port(); break;
+    case 22: cv = ada_has_password(h); if (r) pv = r->has_password(); break;
+    case 23: cv = ada_has_hash(h); if (r) pv = r->has_hash(); break;
+    case 24: cv = ada_has_search(h); if (r) pv = r->has_search(); break;
+    case 25: cv = ada_is_valid(h); pv = r.has_value(); break;
+    case 26: cv = ada_get_host_type(h); if (r) pv = r->host_type; break;
+    case 27: cv = ada_get_scheme_type(h); if (r) pv = r->type; break;
+    default: {
+      const ada_url_components* c = ada_get_components(h);
+      if (!r) { cv = (c == nullptr); pv = 1; break; }
+      if (c == nullptr) { cv = 0xdead; break; }
+      const ada::url_components& k = r->get_components();
+      cv = (c->protocol_end == k.protocol_end) && (c->username_end == k.username_end) && (c->host_start == k.host_start) &&
+           (c->host_end == k.host_end) && (c->port == k.port) && (c->pathname_start == k.pathname_start) &&
+           (c->search_start == k.search_start) && (c->hash_start == k.hash_start);
+      pv = 1;
+    }
+  }
+  return (cv & 0xffff) | ((pv & 0xffff) << 16) | (uint64_t(r.has_value()) << 34);
+}
+// owned strings: a block of p0 bytes handed out as ada_owned_string must be released by ada_free_owned_string
+VK(capi_owned) {
+  UNUSED;
+  ada_owned_string o{};
+  o.length = p0;
+  o.data = new char[p0];
+  *reinterpret_cast<const char**>(out) = o.data;  // the pointer escapes: the allocation cannot be elided by the compiler
+  ada_free_owned_string(o);
+  return 0;
+}
+// setters / clear on a failed handle: no crash, false
+VK(capi_failed_mutators) {
+  UNUSED;
+  ada::result<ada::url_aggregator> r = tl::unexpected(ada::errors::type_error);
+  void* h = &r;
+  const char* s = reinterpret_cast<const char*>(in);
+  uint64_t v = 0;
+  v |= uint64_t(ada_set_href(h, s, n)) << 0; v |= uint64_t(ada_set_host(h, s, n)) << 1; v |= uint64_t(ada_set_hostname(h, s, n)) << 2;
+  v |= uint64_t(ada_set_protocol(h, s, n)) << 3; v |= uint64_t(ada_set_username(h, s, n)) << 4; v |= uint64_t(ada_set_password(h, s, n)) << 5;
+  v |= uint64_t(ada_set_port(h, s, n)) << 6; v |= uint64_t(ada_set_pathname(h, s, n)) << 7;
+  ada_set_search(h, s, n); ada_set_hash(h, s, n); ada_clear_port(h); ada_clear_hash(h); ada_clear_search(h);
+  v |= uint64_t(r.has_value()) << 8;
+  ada_owned_string o = ada_get_origin(h);
+  v |= uint64_t(o.data != nullptr || o.length != 0) << 9;
+  return v;
+}
+#endif
+
+// ---------------------------------------------------------------- lazy Unicode tables (C13)
+VK(ensure_tables) { UNUSED; return ada::idna::ensure_tables(); }
+VK(tables_are_ready) { UNUSED; return ada::idna::tables_are_ready(); }
+// number of table pointers that are non-null (20 tables + the owning buffer = 21 when published)
+VK(tables_published) {
+  UNUSED;
+  using namespace ada::idna;
+  unsigned k = 0;
+  k += idna_stage1 != nullptr; k += idna_stage2 != nullptr; k += idna_bool_blocks != nullptr; k += idna_utf8_mappings != nullptr;
+  k += decomposition_index != nullptr; k += decomposition_block_flat != nullptr; k += decomposition_data != nullptr;
+  k += ccc_index != nullptr; k += ccc_block_flat != nullptr; k += composition_index != nullptr;
+  k += composition_block_flat != nullptr; k += composition_data != nullptr; k += id_continue != nullptr; k += id_start != nullptr;
+  k += dir_start != nullptr; k += dir_final != nullptr; k += dir_value != nullptr; k += combining_ranges != nullptr;
+  k += tables_buffer != nullptr;
+  return k;
+}
+// the ENVIRONMENT's publication step in the C13 harness (what a peer that won the CAS does before storing READY)
+VK(tables_env_publish) {
+  UNUSED;
+  using namespace ada::idna;
+  uint8_t* b = out;
+  idna_stage1 = reinterpret_cast<const uint16_t*>(b); idna_stage2 = reinterpret_cast<const uint16_t*>(b);
+  idna_bool_blocks = reinterpret_cast<const uint64_t*>(b); idna_utf8_mappings = b;
+  decomposition_index = b; decomposition_block_flat = reinterpret_cast<const uint16_t*>(b);
+  decomposition_data = reinterpret_cast<const char32_t*>(b); ccc_index = b; ccc_block_flat = b; composition_index = b;
+  composition_block_flat = reinterpret_cast<const uint16_t*>(b); composition_data = reinterpret_cast<const char32_t*>(b);
+  id_continue = reinterpret_cast<range_pair_ptr>(b); id_start = reinterpret_cast<range_pair_ptr>(b);
+  dir_start = reinterpret_cast<const uint32_t*>(b); dir_final = reinterpret_cast<const uint32_t*>(b); dir_value = b;
+  combining_ranges = reinterpret_cast<range_pair_ptr>(b);
+  tables_buffer = b;
+  return 0;
+}
+
+// ---------------------------------------------------------------- URLPattern canonicalisation kernels (C15) and escapes (C14)
+#if ADA_INCLUDE_URL_PATTERN
+static const char* const vk_proto_names[6] = {"http", "https", "ws", "ftp", "sc", "https:"};
+static inline std::string_view vk_proto(uint64_t k) { return k < 6 ? std::string_view(vk_proto_names[k]) : std::string_view(); }
+// p0: 0 protocol, 1 username, 2 password, 3 port, 4 search, 5 hash, 6 port_with_protocol(p1), 7 ipv6_hostname
+// returns ok | len<<8 ; out = canonical text
+VK(canon) {
+  UNUSED;
+  namespace h = ada::url_pattern_helpers;
+  tl::expected<std::string, ada::errors> r = tl::unexpected(ada::errors::type_error);
+  switch (p0) {
+    case 0: r = h::canonicalize_protocol(SV); break;
+    case 1: r = h::canonicalize_username(SV); break;
+    case 2: r = h::canonicalize_password(SV); break;
+    case 3: r = h::canonicalize_port(SV); break;
+    case 4: r = h::canonicalize_search(SV); break;
+    case 5: r = h::canonicalize_hash(SV); break;
+    case 6: r = h::canonicalize_port_with_protocol(SV, vk_proto(p1)); break;
+    default: r = h::canonicalize_ipv6_hostname(SV); break;
+  }
+  if (!r) return 0;
+  return 1 | (vk_put(out, cap, *r) << 8);
+}
+// class bits | path_signature<<8 | forbidden-domain-or-upper<<16 of one byte
+VK(char_class) {
+  UNUSED;
+  char c = char(uint8_t(p0));
+  return uint64_t(ada::url_pattern_helpers::char_class_table[uint8_t(p0)]) |
+         (uint64_t(ada::checkers::path_signature(std::string_view(&c, 1))) << 8) |
+         (uint64_t(ada::unicode::contains_forbidden_domain_code_point_or_upper(&c, 1)) << 16);
+}
+// p0: 0 escape_pattern_string, 1 escape_regexp_string
+VK(escape) {
+  UNUSED;
+  std::string r = p0 ? ada::url_pattern_helpers::escape_regexp_string(SV) : ada::url_pattern_helpers::escape_pattern_string(SV);
+  return vk_put(out, cap, r);
+}
+#endif
+
+// ---------------------------------------------------------------- Punycode (C06, C16)
+static inline uint64_t vk_put_u32s(uint8_t* out, uint64_t cap, std::u32string_view s) {
+  uint64_t k = s.size() * 4 <= cap ? s.size() : cap / 4;
+  for (uint64_t i = 0; i < k; i++) vk_put_u32(out + 4 * i, uint32_t(s[i]));
+  return s.size();
+}
+VK(puny_verify) { UNUSED; return ada::idna::verify_punycode(SV); }
+// returns ok | count<<8 ; out = decoded code points (LE32)
+VK(puny_decode) {
+  UNUSED;
+  std::u32string o;
+  bool ok = ada::idna::punycode_to_utf32(SV, o);
+  return uint64_t(ok) | (vk_put_u32s(out, cap, o) << 8);
+}
+// in = n/4 code points (LE32); returns ok | len<<8 ; out = punycode (without "xn--")
+VK(puny_encode) {
+  UNUSED;
+  std::u32string u;
+  for (uint64_t i = 0; i + 3 < n; i += 4) u.push_back(char32_t(uint32_t(in[i]) | (uint32_t(in[i + 1]) << 8) | (uint32_t(in[i + 2]) << 16) | (uint32_t(in[i + 3]) << 24)));
+  std::string o;
+  bool ok = ada::idna::utf32_to_punycode(u, o);
+  return uint64_t(ok) | (vk_put(out, cap, o) << 8);
+}
+// ada::idna::to_ascii(string_view, std::string&): returns ok | len<<8 ; out = result
+VK(idna_to_ascii) {
+  UNUSED;
+  std::string o;
+  bool ok = ada::idna::to_ascii(SV, o);
+  return uint64_t(ok) | (vk_put(out, cap, o) << 8);
 }
